@@ -205,9 +205,41 @@ struct Case {
     Buf<Elem> A, B, D, D2;
     Buf<int> IA, IB, ID;
     bool used_d = false, used_d2 = false;
+    bool rev = false; // category "rev": A holds the sequence back to front, the algorithm sees it through reverse_iterator
     std::vector<int> r;
     Elem value() const { return Elem(v, 7); }
 };
+
+// category "rev": the library's reverse_iterator<pointer> as the iterator type of the range.  Position k
+// of the (reversed) view of A corresponds to the base pointer A.l() - k.
+static Case* g_case = nullptr;
+template <typename T>
+static T* vh_mirror(T* p)
+{
+    return g_case->A.l() - (p - g_case->A.f());
+}
+template <typename T>
+static T* base(lib::reverse_iterator<T*> const& it)
+{
+    return vh_mirror(it.base());
+}
+namespace vw {
+template <typename T>
+struct is_rev<lib::reverse_iterator<T*>> : std::true_type { };
+struct P_rev {
+    static constexpr char const* name = "rev";
+    template <typename T>
+    using rdm = lib::reverse_iterator<T*>;
+    template <typename T>
+    using rd = lib::reverse_iterator<T const*>;
+    template <typename T>
+    using rw = lib::reverse_iterator<T*>;
+    template <typename T>
+    using out = lib::reverse_iterator<T*>;
+    template <typename T>
+    using rd2 = lib::reverse_iterator<T const*>;
+};
+} // namespace vw
 
 // ------------------------------------------------------------------------------------------
 // one function per algorithm, templated on the iterator policy
@@ -515,6 +547,80 @@ SORTALG(merge_sort_, merge_sort)
 MIDSORT(partial_sort)
 MIDSORT(nth_element)
 
+// [reverse.iterators]: relational operators, difference, base() of two reverse iterators on positions i, j
+ALG(rit_cmp)
+{
+    using RI = lib::reverse_iterator<RD(Elem)>;
+    RI ri(mk<RD(Elem)>(x.A.f() + x.m / 8));
+    RI rj(mk<RD(Elem)>(x.A.f() + x.m % 8));
+    RET((int)(ri == rj), (int)(ri != rj), (int)(ri < rj), (int)(ri <= rj), (int)(ri > rj), (int)(ri >= rj), (int)(ri - rj),
+        posA(ri.base()), posA(rj.base()));
+}
+// navigation and element access of a reverse iterator on position i with offset k (only what stays in range)
+ALG(rit_nav)
+{
+    using RI = lib::reverse_iterator<RD(Elem)>;
+    int const NA = -99;
+    int i = x.m / 16, k = x.m % 16 - 8, n = x.A.n;
+    auto in  = [n](int p) { return p >= 0 && p <= n; };
+    auto at  = [&x](RI const& it) { return posA(it.base()); };
+    auto mki = [&x, i] { return RI(mk<RD(Elem)>(x.A.f() + i)); };
+    x.r.assign(14, NA);
+    if (in(i - k)) {
+        x.r[0] = at(mki() + k);
+        x.r[1] = at(k + mki());
+        RI t   = mki();
+        x.r[2] = at(t += k);
+    }
+    if (in(i + k)) {
+        x.r[3] = at(mki() - k);
+        RI t   = mki();
+        x.r[4] = at(t -= k);
+    }
+    if (i - k >= 1 && i - k <= n) { x.r[5] = mki()[k].code(); }
+    if (i >= 1) {
+        x.r[6] = (*mki()).code();
+        x.r[7] = mki()->code();
+        RI t   = mki();
+        x.r[8] = at(++t);
+        RI u   = mki();
+        RI old = u++;
+        x.r[9] = at(old), x.r[10] = at(u);
+    }
+    if (i < n) {
+        RI t    = mki();
+        x.r[11] = at(--t);
+        RI u    = mki();
+        RI old  = u--;
+        x.r[12] = at(old), x.r[13] = at(u);
+    }
+}
+// [iterator.operations] next / advance / prev / distance from position i with offset k
+template <typename P, bool Back, bool Neg>
+static void iter_nav_impl(Case& x)
+{
+    int const NA = -99;
+    int i = x.m / 16, k = x.m % 16 - 8, n = x.A.n;
+    auto in = [n](int p) { return p >= 0 && p <= n; };
+    auto it = [&x](int p) { return mk<RD(Elem)>(x.A.f() + p); };
+    x.r.assign(6, NA);
+    if (in(i + k)) {
+        x.r[0] = posA(lib::next(it(i), k));
+        auto t = it(i);
+        lib::advance(t, k);
+        x.r[1] = posA(t);
+        if (k >= 0 || Neg) { x.r[3] = (int)lib::distance(it(i), it(i + k)); }
+    }
+    if (i < n) { x.r[4] = posA(lib::next(it(i))); }
+    if constexpr (Back) {
+        if (in(i - k)) { x.r[2] = posA(lib::prev(it(i), k)); }
+        if (i > 0) { x.r[5] = posA(lib::prev(it(i))); }
+    }
+}
+ALG(iter_nav) { iter_nav_impl<P, true, false>(x); }
+ALG(iter_nav_ra) { iter_nav_impl<P, true, true>(x); }
+ALG(iter_nav_fwd) { iter_nav_impl<P, false, false>(x); }
+
 // <numeric> on plain integers
 ALG(iota)
 {
@@ -550,9 +656,9 @@ int main() { return 0; }
 // input domains (mirror of spec/AlgoDom.tla; the trace specification re-checks membership,
 // distinctness and the count, so a divergence here is a model failure, never a verdict)
 // ------------------------------------------------------------------------------------------
-enum A1K { A_ANY, A_SORTED, A_PART, A_PAIR, A_MID, A_LEN2, A_CLAMP };
+enum A1K { A_ANY, A_SORTED, A_PART, A_PAIR, A_MID, A_LEN2, A_CLAMP, A_RAMP };
 enum A2K { B_NONE, B_SAME, B_NEEDLE, B_SNEEDLE };
-enum MK { M_0, M_M1N, M_0N, M_0N1, M_M1N1, M_KEYS, M_INPLACE };
+enum MK { M_0, M_M1N, M_0N, M_0N1, M_M1N1, M_KEYS, M_INPLACE, M_PAIRPOS, M_POSOFF, M_POSOFF0 };
 enum VK { V_0, V_KEYS, V_REDUCE, V_ONE };
 using Cs = std::vector<int>;
 static Cs const C0{0}, CU{0, 1, 2, 3}, CC{0, 1, 2, 3}, CB{0, 1, 4, 5}, CE{0, 4, 5}, C01{0, 1}, C012{0, 1, 2};
@@ -596,7 +702,7 @@ static std::vector<Alg> const& table()
         {"mismatch4", {CB, A_MID, B_NEEDLE, M_0, V_0, false}, {R_(mismatch4, P_ptr), R_(mismatch4, P_io)}, {}},
         {"equal3", {CB, A_PAIR, B_SAME, M_0, V_0, false}, {R_(equal3, P_ptr), R_(equal3, P_io)}, {}},
         {"equal4", {CB, A_MID, B_NEEDLE, M_0, V_0, false},
-         {R_(equal4, P_ptr), R_(equal4, P_ra), R_(equal4, P_io), R_(equal4, P_fwd)}, {}},
+         {R_(equal4, P_rev), R_(equal4, P_ptr), R_(equal4, P_ra), R_(equal4, P_io), R_(equal4, P_fwd)}, {}},
         {"search", {CB, A_MID, B_NEEDLE, M_0, V_0, false}, {R_(search, P_ptr), R_(search, P_fwd)}, {}},
         {"search_s", {CB, A_MID, B_NEEDLE, M_0, V_0, false}, {R_(search_s, P_ptr), R_(search_s, P_fwd)}, {}},
         {"find_end", {CB, A_MID, B_NEEDLE, M_0, V_0, false}, {R_(find_end, P_ptr), R_(find_end, P_fwd)}, {}},
@@ -620,10 +726,10 @@ static std::vector<Alg> const& table()
         {"find_first_of", {CB, A_MID, B_NEEDLE, M_0, V_0, false}, {R_(find_first_of, P_ptr), R_(find_first_of, P_io)}, {}},
         {"is_permutation3", {C0, A_PAIR, B_SAME, M_0, V_0, false}, {R_(is_permutation3, P_ptr), R_(is_permutation3, P_fwd)}, {}},
         {"is_permutation4", {C0, A_MID, B_NEEDLE, M_0, V_0, false},
-         {R_(is_permutation4, P_ptr), R_(is_permutation4, P_ra), R_(is_permutation4, P_fwd)}, {}},
+         {R_(is_permutation4, P_rev), R_(is_permutation4, P_ptr), R_(is_permutation4, P_ra), R_(is_permutation4, P_fwd)}, {}},
         {"lexicographical_compare", {CC, A_MID, B_NEEDLE, M_0, V_0, false},
          {R_(lexicographical_compare, P_ptr), R_(lexicographical_compare, P_io)}, {}},
-        {"lower_bound", {CC, A_SORTED, B_NONE, M_0, V_KEYS, false}, {R_(lower_bound, P_ptr), R_(lower_bound, P_fwd)}, {}},
+        {"lower_bound", {CC, A_SORTED, B_NONE, M_0, V_KEYS, false}, {R_(lower_bound, P_rev), R_(lower_bound, P_ptr), R_(lower_bound, P_fwd)}, {}},
         {"upper_bound", {CC, A_SORTED, B_NONE, M_0, V_KEYS, false}, {R_(upper_bound, P_ptr), R_(upper_bound, P_fwd)}, {}},
         {"equal_range", {CC, A_SORTED, B_NONE, M_0, V_KEYS, false}, {R_(equal_range, P_ptr), R_(equal_range, P_fwd)}, {}},
         {"binary_search", {CC, A_SORTED, B_NONE, M_0, V_KEYS, false}, {R_(binary_search, P_ptr), R_(binary_search, P_fwd)}, {}},
@@ -655,10 +761,10 @@ static std::vector<Alg> const& table()
         {"transform2", {C0, A_PAIR, B_SAME, M_0, V_0, false}, {R_(transform2, P_ptr), R_(transform2, P_io)}, {}},
         {"replace", {C0, A_ANY, B_NONE, M_KEYS, V_KEYS, false}, {R_(replace, P_ptr), R_(replace, P_fwd)}, {}},
         {"replace_if", {CU, A_ANY, B_NONE, M_KEYS, V_0, false}, {R_(replace_if, P_ptr), R_(replace_if, P_fwd)}, {}},
-        {"reverse", {C0, A_ANY, B_NONE, M_0, V_0, false}, {R_(reverse, P_ptr), R_(reverse, P_bidi), R_(reverse, P_ra)}, {}},
+        {"reverse", {C0, A_ANY, B_NONE, M_0, V_0, false}, {R_(reverse, P_rev), R_(reverse, P_ptr), R_(reverse, P_bidi), R_(reverse, P_ra)}, {}},
         {"reverse_copy", {C0, A_ANY, B_NONE, M_0, V_0, false}, {R_(reverse_copy, P_ptr), R_(reverse_copy, P_bidi)}, {}},
         {"rotate", {C0, A_ANY, B_NONE, M_0N, V_0, false},
-         {R_(rotate, P_ptr), R_(rotate, P_fwd), R_(rotate, P_bidi), R_(rotate, P_ra)}, {}},
+         {R_(rotate, P_rev), R_(rotate, P_ptr), R_(rotate, P_fwd), R_(rotate, P_bidi), R_(rotate, P_ra)}, {}},
         {"rotate_copy", {C0, A_ANY, B_NONE, M_0N, V_0, false}, {R_(rotate_copy, P_ptr), R_(rotate_copy, P_fwd)}, {}},
         {"swap_ranges", {C0, A_PAIR, B_SAME, M_0, V_0, false}, {R_(swap_ranges, P_ptr), R_(swap_ranges, P_fwd)}, {}},
         {"iter_swap", {C0, A_LEN2, B_NONE, M_0, V_0, false}, {R_(iter_swap, P_ptr), R_(iter_swap, P_fwd)}, {}},
@@ -669,7 +775,7 @@ static std::vector<Alg> const& table()
         {"set_symmetric_difference", {CC, A_SORTED, B_SNEEDLE, M_0, V_0, false},
          {R_(set_symmetric_difference, P_ptr), R_(set_symmetric_difference, P_io)}, {}},
         {"inplace_merge", {CC, A_ANY, B_NONE, M_INPLACE, V_0, false},
-         {R_(inplace_merge, P_ptr), R_(inplace_merge, P_ra),
+         {R_(inplace_merge, P_rev), R_(inplace_merge, P_ptr), R_(inplace_merge, P_ra),
     #if defined(VH_STD) || defined(VH_OK_inplace_merge_P_bidi)
           R_(inplace_merge, P_bidi),
     #endif
@@ -679,7 +785,7 @@ static std::vector<Alg> const& table()
              "bidi",
     #endif
          }},
-        {"unique", {CE, A_ANY, B_NONE, M_0, V_0, false}, {R_(unique, P_ptr), R_(unique, P_fwd)}, {}},
+        {"unique", {CE, A_ANY, B_NONE, M_0, V_0, false}, {R_(unique, P_rev), R_(unique, P_ptr), R_(unique, P_fwd)}, {}},
         {"unique_copy", {CE, A_ANY, B_NONE, M_0, V_0, false},
          {R_(unique_copy, P_ptr), R_(unique_copy, P_fwd),
     #if defined(VH_STD) || defined(VH_OK_unique_copy_P_io)
@@ -692,12 +798,12 @@ static std::vector<Alg> const& table()
     #endif
          }},
         {"remove", {C0, A_ANY, B_NONE, M_0, V_KEYS, false}, {R_(remove, P_ptr), R_(remove, P_fwd)}, {}},
-        {"remove_if", {CU, A_ANY, B_NONE, M_0, V_0, false}, {R_(remove_if, P_ptr), R_(remove_if, P_fwd)}, {}},
+        {"remove_if", {CU, A_ANY, B_NONE, M_0, V_0, false}, {R_(remove_if, P_rev), R_(remove_if, P_ptr), R_(remove_if, P_fwd)}, {}},
         {"remove_copy", {C0, A_ANY, B_NONE, M_0, V_KEYS, false}, {R_(remove_copy, P_ptr), R_(remove_copy, P_io)}, {}},
         {"remove_copy_if", {CU, A_ANY, B_NONE, M_0, V_0, false}, {R_(remove_copy_if, P_ptr), R_(remove_copy_if, P_io)}, {}},
-        {"partition", {CU, A_ANY, B_NONE, M_0, V_0, false}, {R_(partition, P_ptr), R_(partition, P_fwd), R_(partition, P_bidi)}, {}},
+        {"partition", {CU, A_ANY, B_NONE, M_0, V_0, false}, {R_(partition, P_rev), R_(partition, P_ptr), R_(partition, P_fwd), R_(partition, P_bidi)}, {}},
         {"stable_partition", {CU, A_ANY, B_NONE, M_0, V_0, false},
-         {R_(stable_partition, P_ptr), R_(stable_partition, P_ra),
+         {R_(stable_partition, P_rev), R_(stable_partition, P_ptr), R_(stable_partition, P_ra),
     #if defined(VH_STD) || defined(VH_OK_stable_partition_P_bidi)
           R_(stable_partition, P_bidi),
     #endif
@@ -709,9 +815,9 @@ static std::vector<Alg> const& table()
          }},
         {"partition_copy", {CU, A_ANY, B_NONE, M_0, V_0, false}, {R_(partition_copy, P_ptr), R_(partition_copy, P_io)}, {}},
         {"shift_left", {C0, A_ANY, B_NONE, M_0N1, V_0, false},
-         {R_(shift_left, P_ptr), R_(shift_left, P_fwd), R_(shift_left, P_bidi)}, {}},
+         {R_(shift_left, P_rev), R_(shift_left, P_ptr), R_(shift_left, P_fwd), R_(shift_left, P_bidi)}, {}},
         {"shift_right", {C0, A_ANY, B_NONE, M_0N1, V_0, false},
-         {R_(shift_right, P_ptr), R_(shift_right, P_bidi),
+         {R_(shift_right, P_rev), R_(shift_right, P_ptr), R_(shift_right, P_bidi),
     #if defined(VH_STD) || defined(VH_OK_shift_right_P_fwd)
           R_(shift_right, P_fwd),
     #endif
@@ -721,15 +827,20 @@ static std::vector<Alg> const& table()
              "fwd",
     #endif
          }},
-        {"sort", {CC, A_ANY, B_NONE, M_0, V_0, false}, {R_(sort, P_ptr), R_(sort, P_ra)}, {}},
-        {"stable_sort", {CC, A_ANY, B_NONE, M_0, V_0, false}, {R_(stable_sort, P_ptr), R_(stable_sort, P_ra)}, {}},
-        {"bubble_sort", {CC, A_ANY, B_NONE, M_0, V_0, false}, {R_(bubble_sort_, P_ptr), R_(bubble_sort_, P_ra)}, {}},
-        {"exchange_sort", {CC, A_ANY, B_NONE, M_0, V_0, false}, {R_(exchange_sort_, P_ptr), R_(exchange_sort_, P_ra)}, {}},
-        {"gnome_sort", {CC, A_ANY, B_NONE, M_0, V_0, false}, {R_(gnome_sort_, P_ptr), R_(gnome_sort_, P_ra)}, {}},
-        {"insertion_sort", {CC, A_ANY, B_NONE, M_0, V_0, false}, {R_(insertion_sort_, P_ptr), R_(insertion_sort_, P_ra)}, {}},
-        {"merge_sort", {CC, A_ANY, B_NONE, M_0, V_0, false}, {R_(merge_sort_, P_ptr), R_(merge_sort_, P_ra)}, {}},
-        {"partial_sort", {CC, A_ANY, B_NONE, M_0N, V_0, false}, {R_(partial_sort, P_ptr), R_(partial_sort, P_ra)}, {}},
-        {"nth_element", {CC, A_ANY, B_NONE, M_0N, V_0, false}, {R_(nth_element, P_ptr), R_(nth_element, P_ra)}, {}},
+        {"sort", {CC, A_ANY, B_NONE, M_0, V_0, false}, {R_(sort, P_rev), R_(sort, P_ptr), R_(sort, P_ra)}, {}},
+        {"stable_sort", {CC, A_ANY, B_NONE, M_0, V_0, false}, {R_(stable_sort, P_rev), R_(stable_sort, P_ptr), R_(stable_sort, P_ra)}, {}},
+        {"bubble_sort", {CC, A_ANY, B_NONE, M_0, V_0, false}, {R_(bubble_sort_, P_rev), R_(bubble_sort_, P_ptr), R_(bubble_sort_, P_ra)}, {}},
+        {"exchange_sort", {CC, A_ANY, B_NONE, M_0, V_0, false}, {R_(exchange_sort_, P_rev), R_(exchange_sort_, P_ptr), R_(exchange_sort_, P_ra)}, {}},
+        {"gnome_sort", {CC, A_ANY, B_NONE, M_0, V_0, false}, {R_(gnome_sort_, P_rev), R_(gnome_sort_, P_ptr), R_(gnome_sort_, P_ra)}, {}},
+        {"insertion_sort", {CC, A_ANY, B_NONE, M_0, V_0, false}, {R_(insertion_sort_, P_rev), R_(insertion_sort_, P_ptr), R_(insertion_sort_, P_ra)}, {}},
+        {"merge_sort", {CC, A_ANY, B_NONE, M_0, V_0, false}, {R_(merge_sort_, P_rev), R_(merge_sort_, P_ptr), R_(merge_sort_, P_ra)}, {}},
+        {"partial_sort", {CC, A_ANY, B_NONE, M_0N, V_0, false}, {R_(partial_sort, P_rev), R_(partial_sort, P_ptr), R_(partial_sort, P_ra)}, {}},
+        {"nth_element", {CC, A_ANY, B_NONE, M_0N, V_0, false}, {R_(nth_element, P_rev), R_(nth_element, P_ptr), R_(nth_element, P_ra)}, {}},
+        {"rit_cmp", {C0, A_RAMP, B_NONE, M_PAIRPOS, V_0, false}, {R_(rit_cmp, P_ptr), R_(rit_cmp, P_ra)}, {}},
+        {"rit_nav", {C0, A_RAMP, B_NONE, M_POSOFF, V_0, false}, {R_(rit_nav, P_ptr), R_(rit_nav, P_ra)}, {}},
+        {"iter_nav_ra", {C0, A_RAMP, B_NONE, M_POSOFF, V_0, false}, {R_(iter_nav_ra, P_ptr), R_(iter_nav_ra, P_ra), R_(iter_nav_ra, P_rev)}, {}},
+        {"iter_nav", {C0, A_RAMP, B_NONE, M_POSOFF, V_0, false}, {R_(iter_nav, P_bidi)}, {}},
+        {"iter_nav_fwd", {C0, A_RAMP, B_NONE, M_POSOFF0, V_0, false}, {R_(iter_nav_fwd, P_fwd), R_(iter_nav_fwd, P_io)}, {}},
         {"iota", {C0, A_ANY, B_NONE, M_0, V_KEYS, true}, {R_(iota, P_ptr), R_(iota, P_fwd)}, {}},
         {"accumulate", {C01, A_ANY, B_NONE, M_0, V_KEYS, true}, {R_(accumulate, P_ptr), R_(accumulate, P_io)}, {}},
         {"reduce", {C012, A_ANY, B_NONE, M_0, V_REDUCE, true}, {R_(reduce, P_ptr), R_(reduce, P_io)}, {}},
@@ -864,7 +975,9 @@ static void run_case(Alg const& alg, Run const& run, std::vector<int> const& ka,
     if (sh.numeric) {
         x.IA.set(x.a), x.IB.set(x.b), x.ID.blanks(dl);
     } else {
-        x.A.set(x.a), x.B.set(x.b), x.D.blanks(dl), x.D2.blanks(dl);
+        x.rev  = std::strcmp(run.cat, "rev") == 0;
+        g_case = &x;
+        x.A.set(x.rev ? std::vector<int>(x.a.rbegin(), x.a.rend()) : x.a), x.B.set(x.b), x.D.blanks(dl), x.D2.blanks(dl);
     }
     std::memset(g_touch, 0, sizeof g_touch);
     // watchdog: an algorithm that does not return within VH_HANG_SECONDS on a <= 6 element input is
@@ -899,7 +1012,9 @@ static void run_case(Alg const& alg, Run const& run, std::vector<int> const& ka,
         put_arr("oc", {});
         ok = x.IA.intact() && x.IB.intact() && x.ID.intact();
     } else {
-        put_arr("oa", codes(x.A));
+        auto oa = codes(x.A);
+        if (x.rev) { std::reverse(oa.begin(), oa.end()); }
+        put_arr("oa", oa);
         put_arr("ob", codes(x.B));
         put_arr("od", x.used_d ? codes(x.D) : std::vector<int>{});
         put_arr("oc", x.used_d2 ? codes(x.D2) : std::vector<int>{});
@@ -929,6 +1044,11 @@ static long run_group(Alg const& alg, Run const& run, Domain const& dom)
             if (sh.a1 == A_SORTED && !sorted_k(ka, c, 0, ka.size())) { continue; }
             if (sh.a1 == A_PART && !partitioned_k(ka, c)) { continue; }
             if (sh.a1 == A_LEN2 && n != 2) { continue; }
+            if (sh.a1 == A_RAMP) {
+                bool ramp = true;
+                for (int i = 0; i < n; ++i) { ramp = ramp && ka[(size_t)i] == (i + 1) % 3; }
+                if (!ramp) { continue; }
+            }
             if (sh.a1 == A_CLAMP && (n != 3 || rel(c == 0 ? 1 : c, ka[2], ka[1]))) { continue; }
             for (auto const& kb : dom.seqs) {
                 int nb = (int)kb.size();
@@ -945,8 +1065,14 @@ static long run_group(Alg const& alg, Run const& run, Domain const& dom)
                 case M_M1N1: mlo = -1, mhi = n + 1; break;
                 case M_KEYS: mhi = 2; break;
                 case M_INPLACE: mhi = n; break;
+                case M_PAIRPOS: mhi = n * 8 + n; break;       // m = i * 8 + j
+                case M_POSOFF:                                // m = i * 16 + k + 8
+                case M_POSOFF0: mhi = n * 16 + n + 8; break;
                 }
                 for (int m = mlo; m <= mhi; ++m) {
+                    if (sh.mk == M_PAIRPOS && m % 8 > n) { continue; }
+                    if (sh.mk == M_POSOFF && (m % 16 - 8 < -n || m % 16 - 8 > n)) { continue; }
+                    if (sh.mk == M_POSOFF0 && (m % 16 - 8 < 0 || m % 16 - 8 > n)) { continue; }
                     if (sh.mk == M_INPLACE && !(sorted_k(ka, c, 0, (size_t)m) && sorted_k(ka, c, (size_t)m, ka.size()))) { continue; }
                     int vlo = sh.vk == V_ONE ? 1 : 0;
                     int vhi = sh.vk == V_ONE ? 1 : sh.vk == V_0 ? 0 : (sh.vk == V_REDUCE && c == 0) ? 0 : 2;
